@@ -220,6 +220,9 @@ def err_matches(mtoks, msg):
     low = msg.lower()
     if k == 'EResolving':
         return err_matches(mtoks[1:], msg)
+    if k == 'ENodeFailed':
+        node = unhx(mtoks[1][1:])
+        return node in msg and err_matches(mtoks[2:], msg)
     if k == 'EDeserialize':
         cls = unhx(mtoks[1][1:])
         return cls in msg and err_matches(mtoks[2:], msg)
@@ -259,6 +262,10 @@ def err_matches(mtoks, msg):
         return 'non-normal' in low
     if k == 'EMetaParts':
         return 'segment' in low or 'empty' in low
+    if k == 'EDuplicate':
+        return 'collides' in low and f[1] in msg and f[2] in msg and f[3] in msg
+    if k == 'EConfig':
+        return True
     if k == 'EOther':
         return f[0].lower() in low
     return False
